@@ -2,7 +2,8 @@ import Sigc.Lemmas.RefinePrimC
 import Sigc.Lemmas.RefineStepB
 /-!
 # Refine work package — owned objects die with the last functor copy holding them: `collect` on both
-sides.
+sides (a trackable, a scoped connection, or a signal object: `Model.dropHandle` is simulated by
+`Spec.dropHandle`, `R_dropHandle`).
 -/
 namespace Sigc.Refine
 open Sigc.Model
@@ -37,7 +38,26 @@ theorem R_collectStep {s : St} {t : Spec.LSt} (hs : Emit.Inv s) (hR : R s t) :
     simp only
     rcases F2.find hR.ownedK (fun p => !Model.heldK s p.1) (fun p => !Spec.heldK t p.1)
         (fun p q _ _ hpq => by rw [heldK_sim hR, hpq.1]) with ⟨h1, h2⟩ | ⟨a, b, h1, h2, hab⟩
-    · rw [h1, h2]; simp
+    · rw [h1, h2]
+      simp only
+      have hfG : t.ownedG.find? (fun p => !Spec.heldK t p.1) = s.ownedG.find? (fun p => !Model.heldK s p.1) := by
+        rw [hR.ownedG]
+        exact find_congr' (fun p _ => by rw [heldK_sim hR])
+      rw [hfG]
+      cases hG : s.ownedG.find? (fun p => !Model.heldK s p.1) with
+      | none => simp
+      | some p =>
+        obtain ⟨k, g⟩ := p
+        simp only
+        refine ⟨by simp, ?_⟩
+        intro s' h
+        cases h
+        have hs1 : Emit.Inv { s with ownedG := s.ownedG.filter (fun q => q.1 ≠ k) } :=
+          Emit.InvX.congrSub hs rfl rfl rfl rfl (Nat.le_refl _) (fun p hp => (List.mem_filter.mp hp).1)
+        refine ⟨_, rfl, ?_⟩
+        have := R_dropHandle hs1 (hR.updOwnedG (s.ownedG.filter (fun q => q.1 ≠ k))) g
+        rw [hR.ownedG]
+        exact this
     · rw [h1, h2]
       obtain ⟨k, pm⟩ := a
       obtain ⟨k', ps⟩ := b
@@ -72,7 +92,7 @@ theorem R_collectN (n : Nat) {s : St} {t : Spec.LSt} (hs : Emit.Inv s) (hR : R s
 
 theorem R_collect {s : St} {t : Spec.LSt} (hs : Emit.Inv s) (hR : R s t) : R (Model.collect s) (Spec.collect t) := by
   unfold Model.collect Spec.collect
-  rw [hR.ownedT, ← F2.length hR.ownedK]
+  rw [hR.ownedT, ← F2.length hR.ownedK, hR.ownedG]
   exact R_collectN _ hs hR
 
 end Sigc.Refine
